@@ -32,10 +32,16 @@ def run(prop, hc, program, repo):
     return rep.get('violation'), rep.get('digest')
 
 
+MAX_OPS = 120       # longer (volume) programs are not kept: seconds per replay, and the search finds them again
+
+
 def main():
     kept, dropped = 0, 0
+    only = set(sys.argv[1:])
     for meta_path in sorted(glob.glob(os.path.join(core.VERIF_DIR, 'seeded', '*', 'meta.json'))):
         sid = os.path.basename(os.path.dirname(meta_path))
+        if only and sid not in only:
+            continue
         meta = json.load(open(meta_path))
         patch = os.path.join(os.path.dirname(meta_path), 'patch.diff')
         top = tempfile.mkdtemp(prefix='verif-harvest-', dir='/var/tmp')
@@ -47,6 +53,9 @@ def main():
             for c in meta.get('checks', []):
                 prop = c['property']
                 for k, m in enumerate(c.get('minimised') or []):
+                    if len(m['program'].get('ops', [])) > MAX_OPS:
+                        print(sid, prop, m['invariant'], 'volume program (%d operations): not kept' % len(m['program']['ops']))
+                        continue
                     found = None
                     for hc in range(core.HASH_CLASSES):
                         try:
